@@ -46,6 +46,12 @@ def wide_schema():
                      F("h", 8, "map", "map", kkind="string", vkind="message", msg="Inner"), F("i", 9, "wrap", vkind="int32"),
                      F("j", 10, "double"), F("k", 11, "message", "repeated", msg="Inner"), F("l", 12, "timestamp"),
                      F("n", 13, "message", msg="Node")]
+    # proto names that are Python keywords / need re-casing: the Python attribute differs from the proto (and JSON) name
+    types["TNames"] = [F("from", 1, "string", pyname="from_"), F("in", 2, "int32", pyname="in_"), F("class", 3, "bool", "optional", pyname="class_"),
+                       F("lambda", 4, "int64", "repeated", pyname="lambda_"), F("foo_bar", 5, "string"), F("camelCase", 6, "int32", pyname="camel_case"),
+                       F("is", 7, "message", msg="Inner", pyname="is_"), F("global", 8, "sint32", "oneof", group="g", pyname="global_"),
+                       F("other_member", 9, "string", "oneof", group="g"), F("HTTPStatus", 10, "int32", pyname="http_status"),
+                       F("value", 11, "bytes")]
     return {"types": types, "enums": {"E": ENUM_E}}
 
 
@@ -64,11 +70,10 @@ F32S = [0.0, -0.0, 1.0, -2.5, float("inf"), float("-inf"), float("nan"), 1.40129
 F64S = [0.0, -0.0, 1.0, -2.5, float("inf"), float("-inf"), float("nan"), 5e-324, 1.7976931348623157e308, 0.1]
 STRS = ["", "a", "é", "\U0001F600", "a\u0000b", "中文 text", "x" * 130]
 BYTS = [b"", b"\x00", b"\xff\x80", bytes(range(7)), b"\xfb\xff\xfe", b"q" * 200]
-US_TS = [0, 1, -1, 999999, 10**6, -10**6, -1500000, 1500000, 1700000000123456, 2**53 + 1, -62135596800 * 10**6,
+US_TS = [5000, 42000, 100000, 999000, 10, 100, 5, 1000, -5000, 1700000000005000, 0, 1, -1, 999999, 10**6, -10**6, -1500000, 1500000, 1700000000123456, 2**53 + 1, -62135596800 * 10**6,
          253402300799 * 10**6 + 999999, 951782400 * 10**6, -11644473600 * 10**6 + 1]
 US_DUR = [0, 1, -1, 999999, -999999, 10**6, -10**6, -1500000, 1500000, 2**53 + 1, -(2**53) - 1, 315576000000 * 10**6,
-          -315576000000 * 10**6, 86399999999999 + 999999999 * 86400 * 10**6 - 86399999999999]
-US_DUR = [x for x in US_DUR if abs(x) <= 86399999999999 + 999999999 * 86400 * 10**6]      # timedelta's own range
+          -315576000000 * 10**6, 315576000000 * 10**6 - 1, 86400 * 10**6, -86400 * 10**6 - 1]
 
 
 def scalar_domain(kind):
@@ -204,7 +209,16 @@ def rsingle(schema, f, kind, rnd, depth):
     if kind == "timestamp":
         if rnd.random() < .3:
             return {"k": "ts", "us": av.rawint(rnd.choice(US_TS))}
-        return {"k": "ts", "us": av.rawint(rnd.randint(-62135596800 * 10**6, 253402300799 * 10**6 + 999999))}
+        us = rnd.randint(-62135596800 * 10**6, 253402300799 * 10**6 + 999999)
+        c = rnd.random()
+        if c < .25:
+            us -= us % 1000                      # whole milliseconds (3 fractional digits), incl. 1..99 ms
+            if c < .1:
+                us -= us % 10**6
+                us += rnd.randint(0, 99) * 1000
+        elif c < .35:
+            us -= us % 10**6
+        return {"k": "ts", "us": av.rawint(us)}
     if kind == "duration":
         if rnd.random() < .3:
             return {"k": "dur", "us": av.rawint(rnd.choice(US_DUR))}
